@@ -93,16 +93,16 @@ Proof.
 Qed.
 
 Theorem delivered_is_prefix_sre :
-  forall (h : list msg) (A B A1 : stream) (fs fs' : list frame) (k : bytes) (K : ctext -> Prop) (n : nat),
-    duplex A B -> rclean B -> key A = Some k -> encrypted A = true -> wf_send A ->
+  forall (h : list msg) (A B A1 : stream) (fs fs' : list frame) (k : bytes) (o : other_dir) (K : ctext -> Prop) (n : nat),
+    duplex A B -> rclean B -> key A = Some k -> encrypted A = true -> wf_send A -> reflect_safe A B o ->
     send_all A h = (A1, SOk fs) ->
-    known_ok k (enc_iv A) (enc_ctr A) fs K -> uses_only K fs' ->
+    known_ok k (enc_iv A) (enc_ctr A) fs o K -> uses_only K fs' ->
     prefix (snd (fst (fst (recv_upto ApiStartReadEnd B n fs')))) (map payload_of h).
 Proof.
-  intros h A B A1 fs fs' k K n D C Hk He Hwf Hs HK Huse.
+  intros h A B A1 fs fs' k o K n D C Hk He Hwf Hsafe Hs HK Huse.
   destruct (send_all_sent _ _ _ _ Hs) as [tr [Hsent Hm]].
   assert (Dn : duplex (norm A) B) by (apply duplex_upd_sbuf; exact D).
-  pose proof (prefix_frames fs' (norm A) B k K tr fs (norm A1) Dn Hk He Hwf Hsent HK Huse) as Hp.
+  pose proof (prefix_frames fs' (norm A) B k o K tr fs (norm A1) Dn Hk He Hwf Hsafe Hsent HK Huse) as Hp.
   eapply prefix_trans; [apply recv_upto_groups_sre; exact C|].
   rewrite <- Hm. apply msgs_of_tr_prefix. exact Hp.
 Qed.
